@@ -199,5 +199,70 @@ func TestVerif_C10(t *testing.T) {
 		}
 		srv.Close()
 	}
+	// (4) one connection, many credentials: every call is mapped from ITS OWN credential
+	for _, mode := range []string{"none", "root", "all"} {
+		fs := refs.New()
+		fs.PlantDir("/d", 0777, 0, 0)
+		fs.PlantFile("/g", []byte("x"), 0040, 4000, 0)
+		srv, err := vfNewSrv(fs, ExportOptions{Squash: mode, AttrCacheTimeout: 1})
+		if err != nil {
+			rec.Infra(err.Error())
+			return
+		}
+		c0 := srv.client()
+		root, _ := c0.mnt("/")
+		l, _ := c0.lookup(root, "d")
+		lg, _ := c0.lookup(root, "g")
+		if l == nil || l.Status != 0 || lg == nil || lg.Status != 0 {
+			rec.Infra("lookup")
+			return
+		}
+		dh, gh := vfFH(l.FH), vfFH(lg.FH)
+		node, _ := srv.ph.lookupNode(gh)
+		node.mu.Lock()
+		node.attrs.Uid, node.attrs.Gid = 4000, 777
+		node.mu.Unlock()
+		p := srv.pipe("127.0.0.1", 650)
+		type cr struct {
+			uid, gid uint32
+			aux      []uint32
+		}
+		seq := []cr{{1000, 1000, nil}, {0, 0, nil}, {2000, 2001, []uint32{777}}, {0, 5, []uint32{0}}, {3000, 0, []uint32{9, 0}}, {1000, 1000, []uint32{777, 0}}, {65534, 65534, nil}}
+		for i, k := range seq {
+			cred := xdrw.AuthSys(uint32(i), "h", k.uid, k.gid, k.aux)
+			wu, wg, waux := vfSquash(mode, k.uid, k.gid, k.aux)
+			name := fmt.Sprintf("%s-%d", mode, i)
+			rec.Eval(2)
+			if _, _, err := p.call(vfProgNFS, 3, 9, cred, xdrw.ArgMkdir(dh, name, sattrNone)); err != nil {
+				rec.Inconclusive(1)
+				break
+			}
+			if e, ok := fs.Peek("/d/" + name); ok && e.OwnerSet && (e.Uid != int(wu) || e.Gid != int(wg)) {
+				rec.Violate("C10/connection/identity-of-another-call-applied/mode="+mode, fmt.Sprintf("call %d on one connection with AUTH_SYS %d:%d created a directory owned %d:%d, want %d:%d", i, k.uid, k.gid, e.Uid, e.Gid, wu, wg), nil)
+			}
+			_, raw, err := p.call(vfProgNFS, 3, 4, cred, xdrw.ArgAccess(gh, 1))
+			if err != nil {
+				rec.Inconclusive(1)
+				break
+			}
+			if rep, derr := rfc.DecodeReply(raw); derr == nil && !rep.Denied && rep.AcceptStat == 0 {
+				if res, derr := rfc.DecodeNFS(4, rep.Body); derr == nil && res.Status == 0 {
+					must, may := vfAccessRule(false, res.Obj.A.Mode, res.Obj.A.UID, res.Obj.A.GID, wu, wg, waux, false, 1)
+					if res.Access&^may != 0 || must&^res.Access != 0 {
+						rec.Violate("C10/connection/aux-gids-of-another-call-applied/mode="+mode, fmt.Sprintf("call %d on one connection with AUTH_SYS %d:%d aux %v: ACCESS granted %#x, want %#x", i, k.uid, k.gid, k.aux, res.Access, must), nil)
+					}
+				}
+			}
+			rec.Distinct(fmt.Sprintf("connection|%s|call=%d", mode, i))
+		}
+		// an undecodable credential after good ones is still refused
+		if _, raw, err := p.call(vfProgNFS, 3, 1, xdrw.Cred{Flavor: 1, Body: []byte{0, 0, 0, 1, 0, 0}}, xdrw.ArgFH(gh)); err == nil {
+			if rep, derr := rfc.DecodeReply(raw); derr == nil && !rep.Denied {
+				rec.Violate("C10/connection/undecodable-credential-accepted-after-good-ones/mode="+mode, "", nil)
+			}
+		}
+		p.close()
+		srv.Close()
+	}
 	rec.Sample(map[string]any{"modes": modes, "ids": ids, "aux_lists": auxLists[:7]})
 }
